@@ -9,14 +9,30 @@
   points) and over an *arbitrary* rounding function `rnd` applied to the non-predicate arithmetic
   (so it covers `i64`, `f64` and any other scalar type).
 
+  Global correctness (section "T2: global correctness of the Graham scan"):
+    grahamHull_isStrictHull_exact   — proved in full for exact scalar types (`rnd = id`)
+    grahamHull_isStrictHull_partial — any rounding, under `DistExactPivot` (rounded squared distances
+                                      order points collinear with the pivot like the exact ones)
+    quickHull_isStrictHull_partial  — proved when the Graham fallback is taken; when quick-hull keeps
+                                      its own ring, containment of that ring is a hypothesis
   Not proved (kept visible, decided on every generated case by running the verified checker on the
   implementation's output):
     theorem quickHull_isStrictHull (pts) : hasTriangle pts → isStrictHull (quickHull rnd pts) pts
     theorem grahamHull_isStrictHull (pts) : hasTriangle pts → isStrictHull (grahamHull rnd pts false) pts
+      (as stated, for an *arbitrary* function `rnd`, this is false: a rounding that maps every
+      distance to 0 lets a nearer collinear point follow a farther one, and the scan drops the
+      farther one; see `DistExactPivot`)
 -/
 import GeoModel.Hull
 import GeoProofs.Lemmas.C08Mem
 import GeoProofs.Lemmas.C08Trivial
+import GeoProofs.Lemmas.C08QAlg
+import GeoProofs.Lemmas.C08QSort
+import GeoProofs.Lemmas.C08QScan
+import GeoProofs.Lemmas.C08QHull
+import GeoProofs.Lemmas.C08QQuick
+import GeoProofs.Lemmas.C08QRound
+import GeoProofs.Lemmas.C08QF64
 import Mathlib.Tactic.Linarith
 import Mathlib.Tactic.Ring
 
@@ -544,5 +560,315 @@ example : roundF64 18014398509481983 = 18014398509481984 ∧ roundF64 9007199254
     roundF64 9007199254740995 = 9007199254740996 ∧
     roundF64 (1 / 10) = 3602879701896397 / 36028797018963968 := by
   decide +kernel
+
+
+/-! ### T2: global correctness of the Graham scan
+
+Helper lemmas: GeoProofs/Lemmas/C08QAlg.lean (polynomial facts), C08QSort.lean (sort step),
+C08QScan.lean (stack pass), C08QHull.lean (pivot, ring, assembly), C08QQuick.lean (fallback). -/
+
+/-- [T] transitivity of the orientation order in a half-plane: as seen from a point `p₀`
+lexicographically less than `a`, `b`, `c` (the pivot of `graham_hull`), "counter-clockwise of or
+collinear with" is transitive. -/
+theorem orientation_order_trans (p₀ a b c : Pt) (ha : lexLt p₀ a = true) (hb : lexLt p₀ b = true)
+    (hc : lexLt p₀ c = true) (h1 : 0 ≤ cross p₀ a b) (h2 : 0 ≤ cross p₀ b c) : 0 ≤ cross p₀ a c :=
+  cross_trans_nonneg ((inH_iff_lexLt _ _).2 ha) ((inH_iff_lexLt _ _).2 hb) ((inH_iff_lexLt _ _).2 hc)
+    h1 h2
+
+example : 0 ≤ cross ⟨0, 0⟩ ⟨3, -1⟩ ⟨0, 5⟩ :=
+  orientation_order_trans ⟨0, 0⟩ ⟨3, -1⟩ ⟨2, 2⟩ ⟨0, 5⟩ (by decide +kernel) (by decide +kernel)
+    (by decide +kernel) (by norm_num [cross]) (by norm_num [cross])
+
+/-- without the half-plane the order is cyclic, not transitive -/
+example : 0 ≤ cross ⟨0, 0⟩ ⟨1, 0⟩ ⟨-1, 1⟩ ∧ 0 ≤ cross ⟨0, 0⟩ ⟨-1, 1⟩ ⟨-1, -1⟩ ∧
+    ¬ 0 ≤ cross ⟨0, 0⟩ ⟨1, 0⟩ ⟨-1, -1⟩ := by
+  norm_num [cross]
+
+/-- [T] the comparator of `graham_hull` is total, whatever the rounding of the distances. -/
+theorem graham_cmp_total (rnd : Rat → Rat) (head q r : Pt) :
+    grahamLe rnd head q r = true ∨ grahamLe rnd head r q = true := by
+  by_cases h : grahamLe rnd head q r = true
+  · exact Or.inl h
+  · exact Or.inr (grahamLe_total rnd head q r h)
+
+/-- [T] the exact comparator `Le0` (strictly counter-clockwise around the pivot, or on a common
+line through it and not farther) is transitive on the pivot's repetitions and the points
+lexicographically greater than it — with totality: a total preorder. -/
+theorem graham_cmp_trans (p₀ a b c : Pt) (ha : a = p₀ ∨ lexLt p₀ a = true)
+    (hb : b = p₀ ∨ lexLt p₀ b = true) (hc : c = p₀ ∨ lexLt p₀ c = true)
+    (h1 : Le0 p₀ a b) (h2 : Le0 p₀ b c) : Le0 p₀ a c :=
+  le0_trans (ha.imp id (inH_iff_lexLt _ _).2) (hb.imp id (inH_iff_lexLt _ _).2)
+    (hc.imp id (inH_iff_lexLt _ _).2) h1 h2
+
+example : Le0 ⟨0, 0⟩ ⟨1, 1⟩ ⟨0, 3⟩ :=
+  graham_cmp_trans ⟨0, 0⟩ ⟨1, 1⟩ ⟨2, 2⟩ ⟨0, 3⟩ (Or.inr (by decide +kernel)) (Or.inr (by decide +kernel))
+    (Or.inr (by decide +kernel)) (Or.inr (by norm_num [cross, dist2])) (Or.inl (by norm_num [cross]))
+
+/-- [T] **sortedness, model comparator**: the sort step of the model (insertion sort mirroring
+`sort_unstable_by`) returns a list whose consecutive elements are in comparator order, for every
+rounding function. -/
+theorem graham_sort_sorted (rnd : Rat → Rat) (head : Pt) (l : List Pt) :
+    GrahamSorted rnd head (grahamSort rnd head l) :=
+  grahamSort_sorted rnd head l
+
+/-- [Tp] **sortedness, exact terms**: consecutive elements `a, b` of the sorted list satisfy
+`cross p₀ a b > 0`, or `= 0` with `a` not farther from `p₀` — when the rounded distances order
+points collinear with the pivot like the exact ones (`DistExact`).
+(Full statement `∀ rnd, SortedAround head (grahamSort rnd head l)` is false for a rounding that
+collapses distinct distances.) -/
+theorem graham_sort_sortedAround_partial (rnd : Rat → Rat) (head : Pt) (l : List Pt)
+    (hd : DistExact rnd head l) : SortedAround head (grahamSort rnd head l) :=
+  grahamSort_sortedAround rnd head l hd
+
+example : SortedAround ⟨0, 0⟩ (grahamSort id ⟨0, 0⟩ [⟨2, 2⟩, ⟨1, 1⟩, ⟨3, 0⟩]) :=
+  graham_sort_sortedAround_partial id _ _ (distExact_id _ _)
+
+/-- [T] … which is the case for exact scalar types (`i64` without overflow: nothing is rounded). -/
+theorem graham_sort_sortedAround_exact (head : Pt) (l : List Pt) :
+    SortedAround head (grahamSort id head l) :=
+  grahamSort_sortedAround id head l (distExact_id head l)
+
+example : SortedAround ⟨0, 0⟩ (grahamSort id ⟨0, 0⟩ [⟨0, 2⟩, ⟨2, 2⟩, ⟨1, 1⟩, ⟨3, 0⟩]) :=
+  graham_sort_sortedAround_exact _ _
+
+/-- [T] a list sorted around the pivot (consecutive elements) whose elements are the pivot or
+lexicographically greater is *pairwise* sorted. -/
+theorem sortedAround_pairwise (p₀ : Pt) (l : List Pt) (hH : ∀ x ∈ l, x = p₀ ∨ lexLt p₀ x = true)
+    (h : SortedAround p₀ l) : l.Pairwise (Le0 p₀) :=
+  h.pairwise (fun x hx => (hH x hx).imp id (inH_iff_lexLt _ _).2)
+
+example : [(⟨3, 0⟩ : Pt), ⟨1, 1⟩, ⟨2, 2⟩].Pairwise (Le0 ⟨0, 0⟩) :=
+  sortedAround_pairwise ⟨0, 0⟩ _ (by decide +kernel)
+    ⟨Or.inl (by norm_num [cross]), Or.inr (by norm_num [cross, dist2]), trivial⟩
+
+/-- [T] the key geometric lemma: a point `top` popped by the stack pass (no strict left turn
+`snd → top → p`) lies in the triangle pivot – `snd` – `p`: every closed half-plane
+`cross u v · ≥ 0` that contains `p₀`, `snd` and `p` contains `top`. (`snd` is the pivot itself or
+a stack point strictly clockwise of `top`.) -/
+theorem graham_popped_in_triangle (p₀ snd top p : Pt)
+    (hsnd : snd = p₀ ∨ (lexLt p₀ snd = true ∧ 0 < cross p₀ snd top))
+    (htop : lexLt p₀ top = true) (hp : lexLt p₀ p = true) (hle : Le0 p₀ top p)
+    (hpop : cross snd top p ≤ 0) (u v : Pt) (h0 : 0 ≤ cross u v p₀) (h1 : 0 ≤ cross u v snd)
+    (h2 : 0 ≤ cross u v p) : 0 ≤ cross u v top := by
+  have := pop_inside (hsnd.imp id (fun h => ⟨(inH_iff_lexLt _ _).2 h.1, h.2⟩))
+    ((inH_iff_lexLt _ _).2 htop) ((inH_iff_lexLt _ _).2 hp) hle hpop
+  apply this u v
+  intro s hs
+  simp only [List.mem_cons, List.not_mem_nil, or_false] at hs
+  rcases hs with hs | hs | hs <;> subst hs <;> assumption
+
+example : 0 ≤ cross ⟨0, 3⟩ ⟨0, 0⟩ ⟨2, 1⟩ :=
+  graham_popped_in_triangle ⟨0, 0⟩ ⟨3, 0⟩ ⟨2, 1⟩ ⟨1, 3⟩ (Or.inr ⟨by decide +kernel, by norm_num [cross]⟩)
+    (by decide +kernel) (by decide +kernel) (Or.inl (by norm_num [cross])) (by norm_num [cross])
+    ⟨0, 3⟩ ⟨0, 0⟩ (by norm_num [cross]) (by norm_num [cross]) (by norm_num [cross])
+
+/-- [Tp] **stack pass, global invariant** — "input already `SortedAround`": for a list `l` sorted
+around `p₀` whose elements are `p₀` or lexicographically greater, the stack pass ends with
+`up ++ [p₀]` where `p₀` followed by `up` reversed is in strictly convex position (`UpOk`: every
+ordered triple of vertices turns strictly left, every point of `up` is greater than `p₀`), and
+every point of `p₀ :: l` lies in the convex hull of the stack (`Inside`: in every closed
+half-plane containing the stack).
+(Full statement: with `l` the output of the sort step; see `grahamHull_isStrictHull_partial`.) -/
+theorem graham_pass_global_partial (p₀ : Pt) (l : List Pt)
+    (hH : ∀ x ∈ l, x = p₀ ∨ lexLt p₀ x = true) (hs : SortedAround p₀ l) :
+    ∃ up, l.foldl (grahamStep false) [p₀] = up ++ [p₀] ∧ UpOk p₀ up ∧
+      ∀ x ∈ p₀ :: l, Inside (up ++ [p₀]) x := by
+  have hH' : ∀ x ∈ l, InH0 p₀ x := fun x hx => (hH x hx).imp id (inH_iff_lexLt _ _).2
+  obtain ⟨up, hfold, hok, _, hall⟩ := grahamFold_main l [] (hs.pairwise hH') hH' (UpOk.nil p₀)
+    (by simp)
+  refine ⟨up, hfold, hok, ?_⟩
+  intro x hx
+  rcases List.mem_cons.1 hx with hx | hx
+  · subst hx; exact Inside.of_mem (by simp)
+  · exact hall x hx
+
+example : ∃ up, [(⟨3, 0⟩ : Pt), ⟨1, 1⟩, ⟨2, 2⟩].foldl (grahamStep false) [⟨0, 0⟩] = up ++ [⟨0, 0⟩] ∧
+    UpOk ⟨0, 0⟩ up ∧ ∀ x ∈ [(⟨0, 0⟩ : Pt), ⟨3, 0⟩, ⟨1, 1⟩, ⟨2, 2⟩], Inside (up ++ [⟨0, 0⟩]) x :=
+  graham_pass_global_partial ⟨0, 0⟩ _ (by decide +kernel)
+    ⟨Or.inl (by norm_num [cross]), Or.inr (by norm_num [cross, dist2]), trivial⟩
+
+/-- [T] exact scalar types satisfy `DistExactPivot` (seen from the pivot, rounded squared distances
+order collinear points like the exact ones — all the scan needs from the scalar arithmetic). -/
+theorem distExactPivot_exact (pts : List Pt) : DistExactPivot id pts := distExactPivot_id pts
+
+/-- [T] so does every monotone rounding that fixes 0 on inputs without a distance tie: two
+coordinates collinear with a third get the same rounded squared distance from it only if they are
+equally far. -/
+theorem distExactPivot_monotone (rnd : Rat → Rat) (hmono : ∀ x y, x ≤ y → rnd x ≤ rnd y)
+    (h0 : rnd 0 = 0) (pts : List Pt)
+    (hnotie : ∀ o ∈ pts, ∀ q ∈ pts, ∀ r ∈ pts, cross o q r = 0 →
+      dist2r rnd o q = dist2r rnd o r → dist2 o q = dist2 o r) : DistExactPivot rnd pts :=
+  distExactPivot_of_monotone rnd hmono h0 pts hnotie
+
+example : DistExactPivot (fun x => (Rat.floor (2 * x) : Rat) / 2) [⟨0, 0⟩, ⟨1, 1⟩, ⟨2, 2⟩, ⟨0, 2⟩] := by
+  apply distExactPivot_monotone
+  · intro x y h
+    have : Rat.floor (2 * x) ≤ Rat.floor (2 * y) := Rat.floor_monotone (by linarith)
+    have : ((Rat.floor (2 * x) : Int) : Rat) ≤ ((Rat.floor (2 * y) : Int) : Rat) := by exact_mod_cast this
+    linarith
+  · decide +kernel
+  · decide +kernel
+
+/-- [Tp] **`grahamHull_isStrictHull`** under `DistExactPivot`: for every coordinate list with three
+non-collinear coordinates the verified checker accepts the model's `graham_hull(.., false)`: the
+ring is closed, turns strictly left at every vertex, its vertices are input coordinates and every
+input coordinate is left of or on every edge.
+(Full statement, false for arbitrary `rnd`:
+  `∀ rnd pts, hasTriangle pts → isStrictHull (grahamHull rnd pts false) pts`.) -/
+theorem grahamHull_isStrictHull_partial (rnd : Rat → Rat) (pts : List Pt)
+    (ht : hasTriangle pts = true) (hd : DistExactPivot rnd pts) :
+    isStrictHull (grahamHull rnd pts false) pts = true := by
+  by_cases hl : pts.length < 4
+  · exact (small_hull_correct rnd pts ht hl).2.1
+  · apply grahamHull_correct_of_distExact rnd pts hl ht
+    have hne : pts ≠ [] := by intro h; simp [h] at hl
+    intro q hq r hr
+    exact hd _ (swapRemove_fst_mem _ _ hne) (pivot_least pts) q (swapRemove_snd_subset _ _ q hq) r
+      (swapRemove_snd_subset _ _ r hr)
+
+example : isStrictHull (grahamHull id [⟨1, 1⟩, ⟨2, 0⟩, ⟨0, 0⟩, ⟨2, 2⟩, ⟨0, 2⟩] false)
+    [⟨1, 1⟩, ⟨2, 0⟩, ⟨0, 0⟩, ⟨2, 2⟩, ⟨0, 2⟩] = true :=
+  grahamHull_isStrictHull_partial id _ (by decide +kernel) (distExactPivot_exact _)
+
+/-- [Tp] **`grahamHull_isStrictHull`, rounding scalar types**: for a monotone rounding that fixes 0
+(the properties of IEEE round-to-nearest; not proved here for the model's `roundF64`) the checker
+accepts `graham_hull(.., false)` on every input that is not in the driver's SKIP class `grahamTie`
+(two distinct coordinates collinear with the pivot with the same rounded squared distance — the
+only inputs where the sorted order depends on `sort_unstable_by`'s internals). -/
+theorem grahamHull_isStrictHull_notie_partial (rnd : Rat → Rat)
+    (hmono : ∀ x y, x ≤ y → rnd x ≤ rnd y) (h0 : rnd 0 = 0) (pts : List Pt)
+    (ht : hasTriangle pts = true)
+    (hnt : grahamTie rnd (swapRemove pts (leastIndex pts)).1 (swapRemove pts (leastIndex pts)).2 = false) :
+    isStrictHull (grahamHull rnd pts false) pts = true := by
+  by_cases hl : pts.length < 4
+  · exact (small_hull_correct rnd pts ht hl).2.1
+  · apply grahamHull_correct_of_distExact rnd pts hl ht
+    apply distExact_of_monotone rnd hmono h0
+    · intro x hx
+      rcases lexLt_tricho x _ (pivot_least pts x (swapRemove_snd_subset _ _ x hx)) with h | h
+      · exact Or.inl h
+      · exact Or.inr ((inH_iff_lexLt _ x).2 h)
+    · intro q hq r hr hc hdd
+      rw [grahamTie_false hnt q hq r hr hc hdd]
+
+/-- a rounding to multiples of 1/2 … (floor): monotone, fixes 0; concrete instance -/
+example : isStrictHull
+    (grahamHull (fun x => (Rat.floor (2 * x) : Rat) / 2) [⟨1, 1⟩, ⟨2, 0⟩, ⟨0, 0⟩, ⟨2, 2⟩, ⟨0, 2⟩] false)
+    [⟨1, 1⟩, ⟨2, 0⟩, ⟨0, 0⟩, ⟨2, 2⟩, ⟨0, 2⟩] = true := by
+  apply grahamHull_isStrictHull_notie_partial
+  · intro x y h
+    have : Rat.floor (2 * x) ≤ Rat.floor (2 * y) := Rat.floor_monotone (by linarith)
+    have : ((Rat.floor (2 * x) : Int) : Rat) ≤ ((Rat.floor (2 * y) : Int) : Rat) := by exact_mod_cast this
+    linarith
+  · decide +kernel
+  · decide +kernel
+  · decide +kernel
+
+/-- [T] the model's binary64 rounding `roundF64` (round to nearest, ties to even, subnormals) is
+monotone and fixes 0. -/
+theorem roundF64_monotone : (∀ x y : Rat, x ≤ y → roundF64 x ≤ roundF64 y) ∧ roundF64 0 = 0 :=
+  ⟨roundF64_mono, roundF64_zero⟩
+
+/-- [Tp] **`grahamHull_isStrictHull` for `f64`** (distances rounded with `roundF64` after every
+operation, as the model does for the `f64` scalar): the checker accepts `graham_hull(.., false)`
+on every input outside the driver's SKIP class `grahamTie`.
+(Full statement without `hnt` fails: with two distinct collinear coordinates of equal rounded
+distance the order after the sort is not determined by the comparator.) -/
+theorem grahamHull_isStrictHull_f64_partial (pts : List Pt) (ht : hasTriangle pts = true)
+    (hnt : grahamTie roundF64 (swapRemove pts (leastIndex pts)).1 (swapRemove pts (leastIndex pts)).2 = false) :
+    isStrictHull (grahamHull roundF64 pts false) pts = true :=
+  grahamHull_isStrictHull_notie_partial roundF64 roundF64_mono roundF64_zero pts ht hnt
+
+example : isStrictHull
+    (grahamHull roundF64 [⟨1 / 10, 1⟩, ⟨2, 0⟩, ⟨0, 0⟩, ⟨1, 0⟩, ⟨2, 2⟩, ⟨0, 2⟩, ⟨1 / 3, 1 / 3⟩] false)
+    [⟨1 / 10, 1⟩, ⟨2, 0⟩, ⟨0, 0⟩, ⟨1, 0⟩, ⟨2, 2⟩, ⟨0, 2⟩, ⟨1 / 3, 1 / 3⟩] = true :=
+  grahamHull_isStrictHull_f64_partial _ (by decide +kernel) (by decide +kernel)
+
+/-- [T] the driver SKIPs a case when `grahamTie rnd pivot pts` holds (evaluated on *all* input
+coordinates); outside that class the tie hypothesis of the two theorems above holds. -/
+theorem graham_skip_class_covers (rnd : Rat → Rat) (pts : List Pt)
+    (h : grahamTie rnd (swapRemove pts (leastIndex pts)).1 pts = false) :
+    grahamTie rnd (swapRemove pts (leastIndex pts)).1 (swapRemove pts (leastIndex pts)).2 = false :=
+  grahamTie_mono (swapRemove_snd_subset pts _) h
+
+example : grahamTie roundF64 ⟨0, 0⟩ (swapRemove [⟨1, 1⟩, ⟨0, 0⟩, ⟨3, 3⟩] (leastIndex [⟨1, 1⟩, ⟨0, 0⟩, ⟨3, 3⟩])).2 = false :=
+  graham_skip_class_covers roundF64 [⟨1, 1⟩, ⟨0, 0⟩, ⟨3, 3⟩] (by decide +kernel)
+
+/-- [T] **`grahamHull_isStrictHull`, exact scalar types** (`rnd = id`; `i64` without overflow):
+the Graham scan of the model returns the strict convex hull, for all inputs with three
+non-collinear coordinates — duplicates, collinear runs and any input order included. -/
+theorem grahamHull_isStrictHull_exact (pts : List Pt) (ht : hasTriangle pts = true) :
+    isStrictHull (grahamHull id pts false) pts = true :=
+  grahamHull_isStrictHull_partial id pts ht (distExactPivot_id pts)
+
+example : isStrictHull
+    (grahamHull id [⟨1, 1⟩, ⟨2, 0⟩, ⟨0, 0⟩, ⟨1, 0⟩, ⟨2, 2⟩, ⟨0, 2⟩, ⟨0, 0⟩, ⟨0, 1⟩] false)
+    [⟨1, 1⟩, ⟨2, 0⟩, ⟨0, 0⟩, ⟨1, 0⟩, ⟨2, 2⟩, ⟨0, 2⟩, ⟨0, 0⟩, ⟨0, 1⟩] = true :=
+  grahamHull_isStrictHull_exact _ (by decide +kernel)
+
+/-- [Tp] **`graham_contains`**: every input coordinate is left of or on every edge of the ring of
+`graham_hull(.., false)` (≥ 3 non-collinear coordinates, `DistExactPivot`). -/
+theorem graham_contains_partial (rnd : Rat → Rat) (pts : List Pt) (ht : hasTriangle pts = true)
+    (hd : DistExactPivot rnd pts) :
+    ∀ p ∈ pts, ∀ e ∈ edges (grahamHull rnd pts false), 0 ≤ cross e.1 e.2 p :=
+  isStrictHull_contains _ _ (grahamHull_isStrictHull_partial rnd pts ht hd)
+
+/-- [T] `graham_contains` for exact scalar types -/
+theorem graham_contains_exact (pts : List Pt) (ht : hasTriangle pts = true) :
+    ∀ p ∈ pts, ∀ e ∈ edges (grahamHull id pts false), 0 ≤ cross e.1 e.2 p :=
+  graham_contains_partial id pts ht (distExactPivot_id pts)
+
+example : 0 ≤ cross ⟨2, 0⟩ ⟨2, 2⟩ ⟨1, 1⟩ :=
+  graham_contains_exact [⟨1, 1⟩, ⟨2, 0⟩, ⟨0, 0⟩, ⟨2, 2⟩, ⟨0, 2⟩] (by decide +kernel) ⟨1, 1⟩ (by simp)
+    (⟨2, 0⟩, ⟨2, 2⟩) (by decide +kernel)
+
+/-- [T] the slice handed to the Graham fallback by `quick_hull` has exactly the input coordinates -/
+theorem quickHullRaw_same_coords (rnd : Rat → Rat) (pts : List Pt) (h : 2 ≤ pts.length) :
+    ∀ x, x ∈ (quickHullRaw rnd pts).1 ↔ x ∈ pts :=
+  fun x => ⟨(quickHullRaw_subset rnd pts h).1 x, quickHullRaw_cover rnd pts x⟩
+
+example : (⟨4, 2⟩ : Pt) ∈ (quickHullRaw id f6Input).1 :=
+  (quickHullRaw_same_coords id f6Input (by decide) _).2 (by decide +kernel)
+
+/-- [Tp] **`quickHull_isStrictHull`**: the checker accepts `quick_hull` of the model whenever the
+Graham fallback is taken (proved, under `DistExactPivot`) and for fewer than four coordinates
+(proved); when quick-hull keeps its own ring (it passed `is_strict_ccw_hull`, or has at most three
+coordinates) acceptance of that ring is the hypothesis `hraw`.
+(Full statement: `∀ rnd pts, hasTriangle pts → isStrictHull (quickHull rnd pts) pts`; missing:
+containment for the recursive `hull_set`.) -/
+theorem quickHull_isStrictHull_partial (rnd : Rat → Rat) (pts : List Pt)
+    (ht : hasTriangle pts = true) (hd : DistExactPivot rnd pts)
+    (hraw : 4 ≤ pts.length → quickHull rnd pts = (quickHullRaw rnd pts).2 →
+      isStrictHull (quickHullRaw rnd pts).2 pts = true) :
+    isStrictHull (quickHull rnd pts) pts = true := by
+  by_cases hl : pts.length < 4
+  · exact (small_hull_correct rnd pts ht hl).1
+  · have h4 : 4 ≤ pts.length := by omega
+    rcases quickHull_verified_or_graham rnd pts h4 with ⟨heq, _⟩ | heq
+    · rw [heq]; exact hraw h4 heq
+    · rw [heq]
+      have hm := quickHullRaw_same_coords rnd pts (by omega)
+      rw [← isStrictHull_congr _ _ _ hm]
+      apply grahamHull_isStrictHull_partial
+      · rw [hasTriangle_congr _ _ hm]; exact ht
+      · exact distExactPivot_congr rnd pts _ hm hd
+
+/-- [Tp] the same for `ConvexHull::convex_hull`. -/
+theorem convexHull_isStrictHull_partial (rnd : Rat → Rat) (pts : List Pt)
+    (ht : hasTriangle pts = true) (hd : DistExactPivot rnd pts)
+    (hraw : 4 ≤ pts.length → quickHull rnd pts = (quickHullRaw rnd pts).2 →
+      isStrictHull (quickHullRaw rnd pts).2 pts = true) :
+    isStrictHull (convexHull rnd pts) pts = true := by
+  rw [convexHull_eq_quickHull]; exact quickHull_isStrictHull_partial rnd pts ht hd hraw
+
+example : isStrictHull (convexHull id f6Input) f6Input = true :=
+  convexHull_isStrictHull_partial id f6Input (by decide +kernel) (distExactPivot_id _)
+    (fun _ h => absurd h (by decide +kernel))
+
+/-- the F6 input takes the fallback: the hypothesis `hraw` is vacuous there and the theorem gives
+the strict hull -/
+example : isStrictHull (quickHull id f6Input) f6Input = true :=
+  quickHull_isStrictHull_partial id f6Input (by decide +kernel) (distExactPivot_id _)
+    (fun _ h => absurd h (by decide +kernel))
 
 end Geo.Proofs.C08
